@@ -1,1 +1,79 @@
-fn main() { println!("{:?}", jmespath::compile("a.b").unwrap().as_ast()); }
+//! The conformance driver: spells nothing, expects nothing.  It runs the real library on cases and records what
+//! it observed, one ndjson line per case (flushed per line so that a crash of the code under test loses nothing).
+//!
+//!   driver run <engine> <cases.ndjson> <obs.ndjson> [--from K]
+//!   driver gen <engine> <seed> <n> <out.ndjson>
+#![allow(unused_mut, dead_code, unused_variables)]
+
+mod val;
+mod search;
+mod slice;
+
+use serde_json::Value;
+use std::fs::{File, OpenOptions};
+use std::io::{BufRead, BufReader, Write};
+
+fn die(msg: &str) -> ! {
+    eprintln!("DRIVER-ERROR {}", msg);
+    std::process::exit(3);
+}
+
+pub type Runner = fn(&Value) -> Value;
+
+fn runner(engine: &str) -> Runner {
+    match engine {
+        "search" => search::run_case,
+        "slice" => slice::run_case,
+        _ => die(&format!("unknown engine {}", engine)),
+    }
+}
+
+fn main() {
+    // panics of the code under test are caught and recorded; keep stderr quiet
+    std::panic::set_hook(Box::new(|_| {}));
+    let args: Vec<String> = std::env::args().collect();
+    if args.len() < 2 {
+        die("usage");
+    }
+    match args[1].as_str() {
+        "run" => {
+            if args.len() < 5 {
+                die("usage: run <engine> <cases> <obs> [--from K]");
+            }
+            let from: usize = if args.len() >= 7 && args[5] == "--from" { args[6].parse().unwrap_or(0) } else { 0 };
+            let f = runner(&args[2]);
+            let cases = BufReader::new(File::open(&args[3]).unwrap_or_else(|e| die(&format!("open cases: {}", e))));
+            let mut out = OpenOptions::new().create(true).append(true).open(&args[4]).unwrap_or_else(|e| die(&format!("open obs: {}", e)));
+            for (i, line) in cases.lines().enumerate() {
+                if i < from {
+                    continue;
+                }
+                let line = line.unwrap_or_else(|e| die(&format!("read: {}", e)));
+                if line.trim().is_empty() {
+                    continue;
+                }
+                let case: Value = serde_json::from_str(&line).unwrap_or_else(|e| die(&format!("case {}: {}", i, e)));
+                let obs = f(&case);
+                let mut s = serde_json::to_string(&obs).unwrap();
+                s.push('\n');
+                out.write_all(s.as_bytes()).unwrap_or_else(|e| die(&format!("write: {}", e)));
+            }
+        }
+        "gen" => {
+            if args.len() < 6 {
+                die("usage: gen <engine> <seed> <n> <out>");
+            }
+            let seed: u64 = args[3].parse().unwrap_or(0);
+            let n: usize = args[4].parse().unwrap_or(0);
+            let mut out = std::io::BufWriter::new(File::create(&args[5]).unwrap_or_else(|e| die(&format!("create: {}", e))));
+            let recs = match args[2].as_str() {
+                "slice" => slice::gen(seed, n),
+                _ => die("unknown generator"),
+            };
+            for r in recs {
+                writeln!(out, "{}", serde_json::to_string(&r).unwrap()).unwrap();
+            }
+        }
+        _ => die("unknown command"),
+    }
+}
